@@ -105,7 +105,7 @@ def expected_rows(o, shift=0, chunk_mode=False):
     return rows
 
 
-def export(spec, raise_reserved=True):
+def export(spec, raise_reserved=True, ctx=None):
     o = spec["obj"]
     g = spec["genome"]
     chunk = spec.get("chunk")
@@ -116,6 +116,12 @@ def export(spec, raise_reserved=True):
         warnings.simplefilter("ignore")
         collection_to_gff3([coll], buf, add_sequences=spec["fasta"], chromosome_relative_coordinates=not spec["chunk_mode"],
                            raise_on_reserved_attributes=raise_reserved)
+        if ctx is not None:
+            # writing the same collection object a second time gives the same file
+            buf2 = io.StringIO()
+            collection_to_gff3([coll], buf2, add_sequences=spec["fasta"], chromosome_relative_coordinates=not spec["chunk_mode"],
+                               raise_on_reserved_attributes=raise_reserved)
+            ctx.true("second_export_same_file", buf2.getvalue() == buf.getvalue(), {"first": buf.getvalue()[:300], "second": buf2.getvalue()[:300]})
     return coll, buf.getvalue()
 
 
@@ -151,10 +157,15 @@ def check_syntax(spec, ctx):
         ctx.nt()
     if spec["chunk_mode"]:
         ctx.label("chunk_mode")
+    if spec.get("chunk") and not spec["chunk_mode"]:
+        lo_ = min([t["exons"][0][0] for g_ in spec["obj"]["genes"] for t in g_["transcripts"]] + [f["blocks"][0][0] for c in spec["obj"]["feature_collections"] for f in c["features"]])
+        hi_ = max([t["exons"][-1][1] for g_ in spec["obj"]["genes"] for t in g_["transcripts"]] + [f["blocks"][-1][1] for c in spec["obj"]["feature_collections"] for f in c["features"]])
+        if spec["chunk"][0] > lo_ or spec["chunk"][1] < hi_:
+            ctx.label("cutting_chunk_chromosome_coordinates")
     if spec["fasta"]:
         ctx.label("with_fasta")
     try:
-        coll, text = export(spec, raise_reserved=spec["raise_reserved"])
+        coll, text = export(spec, raise_reserved=spec["raise_reserved"], ctx=ctx)
     except GFF3ExportException as e:
         ok = (reserved and spec["raise_reserved"]) or (spec["chunk_mode"] and not spec.get("chunk")) or (spec["fasta"] and spec.get("chunk") and not spec["chunk_mode"])
         ctx.true("export_refused_unexpectedly", ok, repr(e)[:150])
@@ -471,7 +482,14 @@ def strat_syntax(draw, tier="quick"):
     n = hi + draw(st.integers(1, 6))
     sp = {"obj": o, "genome": draw(S.dna(n, n)), "fasta": draw(st.booleans()), "raise_reserved": draw(st.booleans())}
     lo = min([t["exons"][0][0] for g in o["genes"] for t in g["transcripts"]] + [f["blocks"][0][0] for c in o["feature_collections"] for f in c["features"]])
-    if draw(st.integers(0, 2)) == 0:
+    r = draw(st.integers(0, 5))
+    if r == 0:
+        # a chunk that CUTS the members, exported in chromosome coordinates: the file must be the whole-chromosome file
+        a = draw(st.integers(lo, hi - 1))
+        sp["chunk"] = [a, draw(st.integers(a + 1, min(n, hi)))] if draw(st.booleans()) else [draw(st.integers(0, lo)), draw(st.integers(lo + 1, hi))]
+        sp["chunk_mode"] = False
+        sp["fasta"] = False
+    elif r <= 2:
         sp["chunk"] = [draw(st.integers(0, lo)), draw(st.integers(hi, n))]
         sp["chunk_mode"] = draw(st.sampled_from([True, True, False]))
     else:
@@ -532,7 +550,7 @@ PROP = Prop(
         Leg("syntax", check_syntax, strategy=strat_syntax, n_quick=350, n_thorough=3500, shards_quick=4,
             must_hit=["special_char:semicolon", "special_char:equals", "special_char:percent", "special_char:tab", "special_char:newline", "special_char:cr",
                       "special_char:space", "special_char:gt", "special_char:amp", "special_char:dquote", "special_char:squote", "special_char:comma",
-                      "special_char:unicode", "chunk_mode", "with_fasta", "reserved_key_in_qualifiers"],
+                      "special_char:unicode", "chunk_mode", "with_fasta", "reserved_key_in_qualifiers", "cutting_chunk_chromosome_coordinates"],
             rule="collections (genes with 1..2 isoforms, feature collections) with qualifier values over the full special-character set and look-alike/reserved keys, +-FASTA, chromosome or chunk-relative mode; the text is read by an independent 9-column reader with percent-decoding"),
         Leg("reparse", check_reparse, strategy=strat_reparse, n_quick=70, n_thorough=700, shards_quick=8,
             must_hit=["tx_biotype!=gene_biotype", "zero_gap_cds", "lookalike_key", "with_fasta"],
